@@ -2,7 +2,7 @@ import XmpProofs.Resource
 /-! Ledger lemmas for the sound-effect mixer calls (`Xmp.Resource.startSmix`, `smixLoadSample`, `endSmix`). -/
 namespace Xmp.Resource
 
-macro "triv" : tactic => `(tactic| first | rfl | trivial | decide)
+local macro "triv" : tactic => `(tactic| first | rfl | trivial | decide)
 
 /-- the heap is the frame `B` plus the blocks `struct smix_data` refers to -/
 def OwnsS (s : Smix) (w : World) (B : List Tok) : Prop := ∀ u, w.live.count u = B.count u + s.toks.count u
